@@ -668,6 +668,18 @@ func (c *fctx) forStmt() []*S {
 		} else {
 			loop.Body = d.block(nb)
 		}
+		if r.Chance(1, 4) {
+			// the loop variable is written ONLY through a closure created in the body and
+			// called within the same iteration: condition and post must see the update
+			id := c.g.id()
+			bump := fmt.Sprintf("bump%d := func() { %s += 1 }\nif (%s %% 2) == %d {\n\tbump%d()\n}", id, ctr, ctr, r.Intn(2), id)
+			pos := r.Intn(len(loop.Body) + 1)
+			for pos > 0 && (loop.Body[pos-1].K == SBreak || loop.Body[pos-1].K == SContinue || loop.Body[pos-1].K == SReturn) {
+				pos--
+			}
+			loop.Body = append(loop.Body[:pos:pos], append([]*S{{K: SRaw, ID: id, Src: bump}}, loop.Body[pos:]...)...)
+			c.g.mark("loop_variable_written_only_through_a_closure_of_the_body")
+		}
 		c.g.mark("for_three_clause")
 		return []*S{loop}
 	case 1: // i := lo; for i < hi { i++; body }
@@ -711,6 +723,31 @@ func (c *fctx) forStmt() []*S {
 	default: // yielding / effectful init and post around a counter advanced in the body
 		c.sc.declare(ctr, vRO)
 		decl := &S{K: SDecl, ID: c.g.id(), Name: ctr, E: lit(r.Intn(2))}
+		if c.gen && !c.inLit && c.g.cfg.Deleg && r.Chance(1, 4) {
+			// the post delegates to an iterator VARIABLE declared before the loop (advanced by
+			// hand first, sometimes) whose name the body re-declares at its top level; the body
+			// neither yields nor continues
+			outer, inner := c.iterExpr(), c.iterExpr()
+			if outer != nil && inner != nil && outer.K == XIterCall && inner.K == XIterCall {
+				it := c.fresh([]string{"it", "it2", "it3"})
+				c.sc.declare(it, vIter)
+				pre := []*S{decl, {K: SDecl, ID: c.g.id(), Name: it, E: outer}}
+				if r.Bool() {
+					pre = append(pre, &S{K: SRaw, ID: c.g.id(), Src: fmt.Sprintf("if %s.MoveNext() {\n\tvrt.E(%d, %s.Current())\n}", it, c.g.nextTag(), it)})
+				}
+				loop.E = bin(v(ctr), "<", lit(r.Range(1, 3)))
+				loop.Post = &S{K: SYieldFrom, E: v(it)}
+				// (plain statements only: a body that ends in an if is combined with the post
+				// differently)
+				loop.Body = []*S{{K: SIncDec, Name: ctr, Op: "++"}, {K: SDecl, ID: c.g.id(), Name: it, E: inner},
+					{K: SRaw, ID: c.g.id(), Src: fmt.Sprintf("_ = %s.MoveNext()\nvrt.E(%d, %s.Current())", it, c.g.nextTag(), it)}}
+				if r.Chance(1, 3) {
+					loop.Body = append(loop.Body, &S{K: SRaw, ID: c.g.id(), Src: fmt.Sprintf("if %s.MoveNext() {\n\tvrt.E(%d, %s.Current())\n}", it, c.g.nextTag(), it)})
+				}
+				c.g.mark("for_post_yieldfrom_of_variable_shadowed_in_body")
+				return append(pre, loop)
+			}
+		}
 		simple := func() *S {
 			switch {
 			case c.gen && c.g.cfg.Deleg && r.Chance(1, 4) && !(c.dead && c.g.cfg.Quar["A16"]):
@@ -748,8 +785,30 @@ func (c *fctx) forStmt() []*S {
 			}
 			loop.Body = append([]*S{{K: SIncDec, Name: ctr, Op: "++"}, sh}, e.stmts(nb)...)
 			loop.Post.E = bin(v(o), "+", lit(r.Range(0, 3)))
+			if r.Chance(1, 2) {
+				// a body that neither yields nor continues (body and post end up in one thunk),
+				// the post reaches the outer variable only from inside a function literal
+				loop.Body = []*S{{K: SIncDec, Name: ctr, Op: "++"}, sh, {K: SEff, ID: c.g.id(), Tag: c.g.nextTag(), Reads: []string{o}}}
+				if r.Bool() {
+					loop.Post.E = &X{K: XRaw, S: fmt.Sprintf("func() int { return %s + %d }()", o, r.Range(0, 3))}
+				} else {
+					loop.Post.E = &X{K: XRaw, S: fmt.Sprintf("func() int { %s += %d; return %s }()", o, r.Range(1, 3), o)}
+				}
+				c.g.mark("for_post_reads_shadowed_variable_inside_a_function_literal")
+			}
 			c.g.mark("for_post_reads_variable_shadowed_in_body")
 			return []*S{decl, loop}
+		}
+		if loop.Post.K == SYieldFrom && loop.Post.E != nil && loop.Post.E.K == XVar && r.Chance(1, 2) {
+			// the post delegates to an OUTER iterator variable whose name the body re-declares
+			// at its top level; the body neither yields nor continues
+			if src := c.iterExpr(); src != nil && src.K == XIterCall {
+				name := loop.Post.E.Name
+				loop.Body = []*S{{K: SIncDec, Name: ctr, Op: "++"}, {K: SDecl, ID: c.g.id(), Name: name, E: src},
+					{K: SRaw, ID: c.g.id(), Src: fmt.Sprintf("_ = %s.MoveNext()\nvrt.E(%d, %s.Current())", name, c.g.nextTag(), name)}}
+				c.g.mark("for_post_yieldfrom_of_variable_shadowed_in_body")
+				return []*S{decl, loop}
+			}
 		}
 		loop.Body = append([]*S{{K: SIncDec, Name: ctr, Op: "++"}}, d.block(nb)...)
 		if (loop.Post.K == SYield || loop.Post.K == SYieldFrom) && r.Chance(2, 5) {
